@@ -385,7 +385,8 @@ func c20ShowWork(f *modfile.WorkFile) string {
 // ---- generators
 
 var c20Paths = []string{"example.com/m", "a.b/c", "golang.org/x/mod", "gopkg.in/yaml.v2", "example.com/m/v2", "rsc.io/quote/v3", "gopkg.in/check.v1",
-	"x", "github.com/a/b", "é.com/ü", "example.com/a+b", "gopkg.in/x.v0-unstable", "example.com/v2", "m/v3"}
+	"x", "github.com/a/b", "é.com/ü", "example.com/a+b", "gopkg.in/x.v0-unstable", "example.com/v2", "m/v3",
+	"example.com/a\u00a0b", "x\u2003y.com/z", "a\u3000b", "example.com/with space", "example.com/q(r)", "example.com/tab\tbed"}
 var c20OddPaths = []string{"example.com/m/v1", "example.com/m/v02", "x y", "", "(", ")", ",", "[", "a//b", "a/*b", "a\"b", "a'b", "a`b", "a\\b", "a\tb", "a\x00b", "a\xffb", "a\u00a0b", "a\u2028b", "[x", "a,b", "a\u200bb", "日本語", "a\x7fb", "module", "retract", "=>", "a\u00adb"}
 var c20Versions = []string{"v1.0.0", "v1.2.3", "v0.0.0-20200101000000-abcdefabcdef", "v2.0.0+incompatible", "v2.3.4", "v3.0.0", "v0.1.0-pre", "v1.2.3-rc.1", "v1.0.0+meta", "v0.0.0", "v1.2.3-0.20200101000000-abcdefabcdef"}
 var c20OddVersions = []string{"v1", "v1.2", "v2", "latest", "master", "pathlen", "bad1", "modbadx", "1.2.3", "v1.2.3.4", "", "v01.2.3", "v1.2.3 ", "v1 .0", "vX", "retract", "[", "v1.2.3+incompatible", "v1.2.3-", "none"}
@@ -397,7 +398,7 @@ var c20OddToolchains = []string{"go2", "go", "go10", "defaults", "1.21", "\"go1.
 var c20Godebugs = []string{"a=b", "panicnil=1", "x=", "=y", "a=b=c", "default=go1.21"}
 var c20OddGodebugs = []string{"ab", "a,b=c", "\"a=b\"", "a='b'", "`a`=b"}
 var c20CommentTexts = []string{"// c", "//", "// indirect", "//indirect", "// indirect; reason", "//  indirect ;x", "// Deprecated: use other", "// Deprecated:", "// Deprecated:   spaced  ",
-	"// not Deprecated: x", "//\t tab ", "// trailing spaces   ", "// é ü", "// \xff invalid", "// a // b", "// /* x */", "// \u00a0nbsp\u00a0", "// (", "// \"q", "// x\ry"}
+	"// not Deprecated: x", "//\t tab ", "// trailing spaces   ", "// é ü", "// \xff invalid", "// a // b", "// /* x */", "// \u00a0nbsp\u00a0", "// (", "// \"q", "// x\ry", "// 100% sure", "// %s %d %v %!", "// %", "//%%"}
 var c20UnknownVerbs = []string{"frobnicate", "future", "modulex", "goo", "replacex", "ignore", "uses"}
 var c20Spaces = []string{" ", " ", " ", "  ", "\t", " \t ", "\r"}
 
@@ -412,11 +413,30 @@ func c20Pick(r *Rand, common, odd []string, oddPct int) string {
 	return r.Pick(common)
 }
 
+// c20NeedsQuote: the documented rule for when a string must be quoted to be one go.mod token, written
+// independently of modfile.MustQuote (the generator must not inherit a defect of the code under test):
+// empty, contains white space, a quote character, a non-printable rune, a comment opener, or a
+// bracket/comma unless it is the whole string.
+func c20NeedsQuote(s string) bool {
+	if s == "" || strings.Contains(s, "//") || strings.Contains(s, "/*") {
+		return true
+	}
+	for _, r := range s {
+		switch {
+		case unicode.IsSpace(r) || !unicode.IsPrint(r) || r == '"' || r == '\'' || r == '`':
+			return true
+		case strings.ContainsRune("()[]{},", r) && len(s) > 1:
+			return true
+		}
+	}
+	return false
+}
+
 // c20Quote renders an atom as a token: bare, "quoted" or `raw`, biased towards forms that stay one token.
 func c20Quote(r *Rand, s string) string {
-	need := modfile.MustQuote(s)
+	need := c20NeedsQuote(s)
 	switch {
-	case need && r.Chance(85):
+	case need && (c20OddScale == 0 || r.Chance(85)):
 		return strconv.Quote(s)
 	case r.Chance(12):
 		return strconv.Quote(s)
@@ -615,15 +635,61 @@ func c20GenChunks(r *Rand, kind string, unknownPct int) []string {
 	return chunks
 }
 
-func c20UnknownChunk(r *Rand) string {
-	v := r.Pick(c20UnknownVerbs)
-	switch r.Intn(3) {
-	case 0:
-		return c20Chunk(r, v, 100)
-	case 1:
-		return v + " x (\n\ta b\n)\n" // block with two header tokens
+// every verb of File.add / WorkFile.add: a block whose header has a known verb FIRST and more tokens
+// after it is still an unknown block type.
+var c20AllVerbs = []string{"module", "go", "require", "exclude", "replace", "retract", "tool", "godebug", "toolchain", "use"}
+var c20HeaderExtras = []string{"future", "v2", "because", "also", "x", "\"q r\"", "=>", "[", ",", "(", "v1.0.0", "require", "]"}
+var c20GarbageTokens = []string{"a", "b/c", "v1.0.0", "=>", "x y", "1.21", "[", "]", ",", "{", "}", "\"q\"", "`r`", "'s'", "a\"b", "é", "\xff", "//c", "module", "(", "v1", "k=v"}
+
+// c20KnownVerbMultiBlock: `verb extra… (` + body + `)`, the body being valid lines of that verb or garbage.
+func c20KnownVerbMultiBlock(r *Rand, verb string, garbage bool) string {
+	var b strings.Builder
+	b.WriteString(c20Before(r, "", 15))
+	b.WriteString(verb)
+	for n := 1 + r.Intn(2); n > 0; n-- {
+		b.WriteString(c20Sp(r) + r.Pick(c20HeaderExtras))
 	}
-	return c20Chunk(r, v, 0)
+	b.WriteString(c20Sp(r) + "(" + c20Suffix(r, 10) + "\n")
+	saved := c20OddScale
+	c20OddScale = 0
+	for n := r.Intn(4); n > 0; n-- {
+		b.WriteString(c20Before(r, "\t", 10))
+		if garbage {
+			toks := []string{}
+			for k := 1 + r.Intn(4); k > 0; k-- {
+				toks = append(toks, r.Pick(c20GarbageTokens))
+			}
+			b.WriteString("\t" + strings.Join(toks, " ") + "\n")
+		} else {
+			b.WriteString("\t" + c20ArgLine(r, verb) + c20Suffix(r, 20) + "\n")
+		}
+	}
+	c20OddScale = saved
+	b.WriteString(c20Before(r, "\t", 10))
+	b.WriteString(")" + c20Suffix(r, 10) + "\n")
+	return b.String()
+}
+
+// c20UnknownChunkKind: a statement the lax parser must ignore; isBlock says whether it is a block
+// (the strict parser must then report "unknown block type").
+func c20UnknownChunkKind(r *Rand) (string, bool) {
+	v := r.Pick(c20UnknownVerbs)
+	switch r.Intn(6) {
+	case 0:
+		return c20Chunk(r, v, 100), true
+	case 1:
+		return v + " x (\n\ta b\n)\n", true // block with two header tokens
+	case 2, 3:
+		return c20KnownVerbMultiBlock(r, r.Pick(c20AllVerbs), false), true
+	case 4:
+		return c20KnownVerbMultiBlock(r, r.Pick(c20AllVerbs), true), true
+	}
+	return c20Chunk(r, v, 0), false
+}
+
+func c20UnknownChunk(r *Rand) string {
+	s, _ := c20UnknownChunkKind(r)
+	return s
 }
 
 // c20Join joins chunks with 0..2 blank lines and applies whole-file layout variations.
@@ -731,6 +797,8 @@ var c20Boundary = []string{"", "\n", "\r", "\r\n", " ", "//", "//\n", "// c", "/
 	"\xef\xbb\xbfmodule x\n", "x // a\n// b\ny\n", "// a\n\n// b\nx\n", "// a\nx\n// b\n", "x\n\n\n\ny\n", "module x // Deprecated: y\n", "module (\n\t// Deprecated: z\n\tx\n)\n",
 	"require (\n\tmodule v1.0.0\n)\nmodule example.com/m\n", "module (\n)\nmodule example.com/m\n", "retract (\n\tretract v1.0.0\n)\n", "go 1.21\ngo 1.22\n", "module x y\nmodule z\nretract v1.0.0\n",
 	"retract [\"v1.0.0\", 'x']\n", "retract \"v1 .0\"\n", "require \"(\" v1.0.0\n", "x ( ) (\n)\n", "a\u00a0// c\n", "a \xc2// c\n", "\u2028// c\n", "x y // c1 // c2\n", "x\t//c\r\n",
+	"module example.com/m\nrequire future (\n\texample.com/extra v1.0.0\n)\n", "module example.com/m\nrequire v2 (\n\texample.com/extra v1.0.0\n)\nretract because (\n\tv1.5.0\n)\n",
+	"module also (\n\texample.com/other\n)\nmodule example.com/m\n", "go x (\n\t1.21\n)\n", "exclude a b (\n\tgarbage [ , ]\n)\nuse x (\n\t./a\n)\n", "x % y // 100% %s %d\n",
 	"module \"a//b\"\n", "module `x`\n", "module 'x'\n", "  module   x  \n", "module\tx\r\n", "module x\r", "modulex y\n", "module\u00a0x\n"}
 
 func c20Nontrivial(s string) bool {
@@ -1187,33 +1255,77 @@ func c20WorkSyntaxOf(f *modfile.WorkFile) *modfile.FileSyntax {
 // ParseLax accepts leaves it accepted with the same module / go / require / retract values.
 func c20OracleLaxIgnores(g *Gen) {
 	chunks := c20GenChunks(g.Rand, "mod", 0)
+	var with []string
+	blocks := 0
+	ins := func() {
+		u, isBlock := c20UnknownChunkKind(g.Rand)
+		if isBlock {
+			blocks++
+		}
+		with = append(with, u)
+	}
+	for _, c := range chunks {
+		if g.Chance(40) {
+			ins()
+		}
+		with = append(with, c)
+	}
+	ins()
+	c20CheckLaxIgnores(g, chunks, with, blocks, "lax-ignores")
+}
+
+// c20CheckLaxIgnores: `with` is `chunks` plus inserted unknown statements (`blocks` of them are blocks).
+// If the lax parser accepts the file without them, it accepts the file with them, with the same
+// module / go / require / retract values; the strict parser rejects it and reports "unknown block
+// type" once per inserted block.
+func c20CheckLaxIgnores(g *Gen, chunks, with []string, blocks int, tag string) {
 	base := strings.Join(chunks, "\n")
 	f0, err := modfile.ParseLax(c20FileName, []byte(base), nil)
 	if err != nil {
 		return
 	}
-	g.Case("lax-ignores")
-	var with []string
-	for _, c := range chunks {
-		if g.Chance(40) {
-			with = append(with, c20UnknownChunk(g.Rand))
-		}
-		with = append(with, c)
-	}
-	with = append(with, c20UnknownChunk(g.Rand))
 	ext := strings.Join(with, "\n")
 	// the inserted chunk itself must be syntactically fine (its generator may produce odd atoms)
 	if _, err := modfile.ParseSyntax(c20FileName, []byte(ext)); err != nil {
 		return
 	}
+	g.Case(tag)
+	ops := []string{"modfile.parselax nofix " + hx(base), "modfile.parselax nofix " + hx(ext), "modfile.parse nofix " + hx(ext)}
 	f1, err := modfile.ParseLax(c20FileName, []byte(ext), nil)
-	ops := []string{"modfile.parselax nofix " + hx(base), "modfile.parselax nofix " + hx(ext)}
 	if err != nil {
-		g.Fail("lax rejects a file because of unknown directives/blocks", ext, ops...)
-		return
+		g.Fail("lax rejects a file because of unknown directives/blocks", fmt.Sprintf("%q: %v", ext, err), ops...)
+	} else if !c20CoreOf(f0).eq(c20CoreOf(f1)) {
+		g.Fail("unknown directives/blocks change the lax result", fmt.Sprintf("%q", ext), ops...)
 	}
-	if !c20CoreOf(f0).eq(c20CoreOf(f1)) {
-		g.Fail("unknown directives/blocks change the lax result", ext, ops...)
+	_, serr := modfile.Parse(c20FileName, []byte(ext), nil)
+	if serr == nil {
+		g.Fail("strict accepts a file with unknown directives/blocks", fmt.Sprintf("%q", ext), ops...)
+	} else {
+		n := 0
+		for _, e := range c20ErrList(serr) {
+			if c20ErrKind(e) == "unknown-block" {
+				n++
+			}
+		}
+		if n < blocks {
+			g.Fail("strict does not report every unknown block type", fmt.Sprintf("%q: %d of %d", ext, n, blocks), ops...)
+		}
+	}
+}
+
+// c20OracleKnownVerbBlocks: deterministic sweep — for every verb, a multi-token block header starting
+// with that verb (valid body / garbage body) appended to a small accepted file.
+func c20OracleKnownVerbBlocks(g *Gen) {
+	base := []string{"module example.com/m\n", "go 1.21\n", "require a.b/c v1.0.0\n", "retract v1.0.1 // bad\n"}
+	for _, verb := range c20AllVerbs {
+		for _, garbage := range []bool{false, true} {
+			for k := 0; k < 3; k++ {
+				u := c20KnownVerbMultiBlock(g.Rand, verb, garbage)
+				i := g.Intn(len(base) + 1)
+				with := append(append(append([]string{}, base[:i]...), u), base[i:]...)
+				c20CheckLaxIgnores(g, base, with, 1, "lax-ignores-known-verb-header")
+			}
+		}
 	}
 }
 
@@ -1221,6 +1333,7 @@ func oracleC20(g *Gen, n int) {
 	for _, s := range c20Boundary {
 		c20OracleInput(g, s, "boundary")
 	}
+	c20OracleKnownVerbBlocks(g)
 	for i := 0; i < n; i++ {
 		if g.Chance(10) {
 			c20OracleLaxIgnores(g)
